@@ -60,6 +60,20 @@ Theorem C08_lossless_refuted_when_block_codec_lossy :
 Proof. exact lz4_wrapper_forwards_block_result. Qed.
 Print Assumptions C08_lossless_refuted_when_block_codec_lossy.
 
+(* THE CONTRACT IS REFUTED FOR THE REAL, PINNED LIBRARY - at the level of the harness, not as a Coq theorem (Coq knows
+   nothing about pierrec/lz4).  Observation replayed on every run (known finding class=lz4-offset-65536 algorithm=lz4):
+   for x = 'a'*65520 ++ 00 00 00 10 ++ 'a'*16 ++ 00 00 f2 11 00 00 00 00 03 'k' 's' '1' 00*6 (and e.g. harness class text,
+   seed 33, 70000 bytes) pierrec/lz4 v4.0.3 CompressBlock stores a match distance of 65536 as offset 0 and UncompressBlock
+   returns y <> x without error, for every destination size.  The theorem below states what such an observation means:
+   any pair of block functions exhibiting it violates [lz4_block_contract], so the C08 theorems above do not apply to
+   that library on that input class - the evidence says "contract validated empirically except for the known finding". *)
+Theorem C08_contract_refuted_by_lossy_witness :
+  forall (cb ub : list Z -> Z -> result (list Z)) (bound : Z -> Z) (x c y : list Z),
+  bytes_ok x -> x <> [] -> cb x (bound (zlen x)) = Ok c -> ub c (zlen x) = Ok y -> y <> x ->
+  ~ lz4_block_contract cb ub bound.
+Proof. exact contract_refuted_by_lossy_witness. Qed.
+Print Assumptions C08_contract_refuted_by_lossy_witness.
+
 (* non-vacuity: a (trivial, storing) block codec satisfies the contract, so the theorems are not about nothing *)
 Example C08_contract_satisfiable : lz4_block_contract store_compress store_uncompress (fun n => n + 1).
 Proof. exact store_contract. Qed.
